@@ -39,7 +39,7 @@ use std::time::{Duration, Instant};
 pub const META: PropMeta = PropMeta {
     id: "C12",
     level: "exploration",
-    rule: "case = configuration {timeout in Zero|Ms(1..40)|Long(400ms)|None} x {0..4 timers: expired, +1..40ms, equal to the timeout, later than the timeout, far (1h), Duration::MAX, inserted-then-removed (before or after its deadline passed), inserted-then-disabled, armed-then-re-armed by set_deadline+update (old/new deadline past or future), overdue timer whose callback re-arms it with ToDuration(period)} x {0..5 idle sources: ping live/dead, channel live/dead, executor live/scheduler dropped, stream ended/pending, Generic EMPTY/READ quiet, disabled source with pending ping; live ones optionally used once during warm-up} x optional helper thread (ping|channel send|LoopSignal::wakeup|no-op signal to the loop thread, after 5..25ms); one measured dispatch per case after warm-up, optionally followed by a second measured dispatch (0..40 ms) judged against the timers still armed then (lower bound exact, limiting timer fired, no timer fires twice, upper bound with slack). non-trivial: a follow-up dispatch had to wait although a former / re-armed / already fired timer existed, or (timeout is Some and >= 1 live timer, or a dead-peer source is present) and the dispatch had to wait (L > 0, L = min(timeout, earliest deadline - t_before)). distinct: fingerprint of the normalised configuration",
+    rule: "case = configuration {timeout in Zero|Ms(1..40)|Long(400ms)|None} x {0..4 timers: expired, +1..40ms, equal to the timeout, later than the timeout, far (1h), Duration::MAX, inserted-then-removed (before or after its deadline passed), inserted-then-disabled, armed-then-re-armed by set_deadline+update (old/new deadline past or future), overdue timer whose callback re-arms it with ToDuration(period)} x {0..5 idle sources: ping live/dead, channel live/dead, executor live/scheduler dropped, stream ended/pending, Generic EMPTY/READ quiet, disabled source with pending ping, lifecycle source whose before_sleep takes 80 ms (with a timer 120 ms out); live ones optionally used once during warm-up} x optional helper thread (ping|channel send|LoopSignal::wakeup|no-op signal to the loop thread, after 5..25ms); one measured dispatch per case after warm-up, optionally followed by a second measured dispatch (0..40 ms) judged against the timers still armed then (lower bound exact, limiting timer fired, no timer fires twice, upper bound with slack). non-trivial: a follow-up dispatch had to wait although a former / re-armed / already fired timer existed, or (timeout is Some and >= 1 live timer, or a dead-peer source is present) and the dispatch had to wait (L > 0, L = min(timeout, earliest deadline - t_before)). distinct: fingerprint of the normalised configuration",
     assumptions: &[
         "std::time::Instant and the timerfd used by polling both read CLOCK_MONOTONIC; hrtimers never expire early",
         "upper bounds are scheduling-latency bounds: 60 ms slack, only asserted when the same configuration misses 3 times in a row",
@@ -92,6 +92,8 @@ pub enum TimerSpec {
     Equal,
     /// t0 + timeout + ms (treated as Far when the timeout is None)
     Later { ms: u8 },
+    /// t0 + 120 ms (later than a slow before_sleep hook takes)
+    AtLate,
     /// t0 + 1 h
     Far,
     /// Timer::from_duration(Duration::MAX): no deadline at all
@@ -138,6 +140,9 @@ pub enum Idle {
     GenericRead { used: bool },
     /// ping source pinged and then disabled: readiness pending but not polled
     DisabledPinged,
+    /// a quiet source with extra lifecycle events whose before_sleep takes 80 ms (it flushes something) in the
+    /// measured dispatch: a timer deadline must still be honoured (the wait is computed after the hooks ran)
+    SlowHook,
 }
 
 #[derive(Serialize, Deserialize, Debug, Clone, Copy, Hash, PartialEq, Eq)]
@@ -189,6 +194,7 @@ impl TimerSpec {
         let t = timeout.duration().map(|d| d.as_millis() as i64);
         match self {
             TimerSpec::At { ms } => Some(ms as i64),
+            TimerSpec::AtLate => Some(120),
             TimerSpec::Expired { ago_ms } => Some(-(ago_ms as i64)),
             TimerSpec::Equal => t,
             TimerSpec::Later { ms } => t.map(|t| t + ms as i64),
@@ -223,6 +229,7 @@ impl Idle {
             Idle::GenericRead { used: false } => "idle:generic_read",
             Idle::GenericRead { used: true } => "idle:generic_read_used",
             Idle::DisabledPinged => "idle:disabled_pinged",
+            Idle::SlowHook => "idle:slow_before_sleep_hook",
         }
     }
 }
@@ -240,7 +247,8 @@ fn planned_bound_ms(c: &Case) -> Option<i64> {
             b = Some(b.map_or(h.delay_ms as i64, |b| b.min(h.delay_ms as i64)));
         }
     }
-    b.map(|b| b.max(0))
+    let hook = 80 * c.idle.iter().filter(|i| matches!(i, Idle::SlowHook)).count() as i64;
+    b.map(|b| b.max(0) + hook)
 }
 
 fn has_bounding_timer(c: &Case) -> bool {
@@ -341,6 +349,7 @@ fn idle_strategy() -> impl Strategy<Value = Idle> {
         2 => Just(Idle::GenericEmpty),
         2 => any::<bool>().prop_map(|used| Idle::GenericRead { used }),
         2 => Just(Idle::DisabledPinged),
+        1 => Just(Idle::SlowHook),
     ];
     prop_oneof![14 => live, 10 => dead]
 }
@@ -372,6 +381,10 @@ fn case_strategy() -> impl Strategy<Value = Case> {
             // the follow-up dispatch is only judged without a waking helper: mostly generate it that way
             if follow.is_some() && helper.map_or(false, |h| h.kind != HelperKind::Signal && h.delay_ms % 4 != 0) {
                 helper = None;
+            }
+            // a slow hook is interesting with a timer that outlasts it
+            if idle.iter().any(|i| matches!(i, Idle::SlowHook)) && timers.len() < 4 && ms % 3 != 0 {
+                timers.push(TimerSpec::AtLate);
             }
             let mut c = Case { timeout, timers: timers.clone(), idle: idle.clone(), helper, follow };
             let waking_helper = helper.map_or(false, |h| h.kind != HelperKind::Signal);
@@ -429,6 +442,44 @@ fn install_noop_sigusr2() {
         libc::sigemptyset(&mut sa.sa_mask);
         libc::sigaction(libc::SIGUSR2, &sa, std::ptr::null_mut());
     });
+}
+
+const SLOW_HOOK: Duration = Duration::from_millis(80);
+
+/// Ping-backed source with extra lifecycle events whose before_sleep is slow while the flag is set.
+struct SlowHookSource {
+    inner: calloop::ping::PingSource,
+    slow: Arc<AtomicBool>,
+}
+
+impl calloop::EventSource for SlowHookSource {
+    type Event = ();
+    type Metadata = ();
+    type Ret = ();
+    type Error = calloop::ping::PingError;
+    const NEEDS_EXTRA_LIFECYCLE_EVENTS: bool = true;
+    fn process_events<F>(&mut self, readiness: calloop::Readiness, token: calloop::Token, callback: F) -> Result<PostAction, Self::Error>
+    where
+        F: FnMut((), &mut ()),
+    {
+        self.inner.process_events(readiness, token, callback)
+    }
+    fn register(&mut self, poll: &mut calloop::Poll, tf: &mut calloop::TokenFactory) -> calloop::Result<()> {
+        self.inner.register(poll, tf)
+    }
+    fn reregister(&mut self, poll: &mut calloop::Poll, tf: &mut calloop::TokenFactory) -> calloop::Result<()> {
+        self.inner.reregister(poll, tf)
+    }
+    fn unregister(&mut self, poll: &mut calloop::Poll) -> calloop::Result<()> {
+        self.inner.unregister(poll)
+    }
+    fn before_sleep(&mut self) -> calloop::Result<Option<(calloop::Readiness, calloop::Token)>> {
+        if self.slow.load(Ordering::SeqCst) {
+            std::thread::sleep(SLOW_HOOK);
+        }
+        Ok(None)
+    }
+    fn before_handle_events(&mut self, _events: calloop::EventIterator<'_>) {}
 }
 
 enum Action {
@@ -541,6 +592,8 @@ fn run_once(c: &Case) -> Obs {
     let h = el.handle();
     // handles and peers that must stay alive until the end of the case
     let mut keep: Vec<Box<dyn Any>> = Vec::new();
+    // slow before_sleep hooks only take their time in the measured dispatch (not in warm-ups / the follow-up)
+    let slow_flag = Arc::new(AtomicBool::new(false));
 
     for (i, idle) in c.idle.iter().enumerate() {
         match *idle {
@@ -626,6 +679,11 @@ fn run_once(c: &Case) -> Obs {
                     kernel::raw_write(b, b"x");
                 }
                 keep.push(Box::new(kernel::OwnedRaw(b)));
+            }
+            Idle::SlowHook => {
+                let (p, s) = calloop::ping::make_ping().expect("make_ping");
+                h.insert_source(SlowHookSource { inner: s, slow: slow_flag.clone() }, move |_, _, t: &mut Trace| t.push(Src::Idle(i))).expect("insert slow-hook source");
+                keep.push(Box::new(p));
             }
             Idle::DisabledPinged => {
                 let (p, s) = calloop::ping::make_ping().expect("make_ping");
@@ -725,6 +783,7 @@ fn run_once(c: &Case) -> Obs {
             TimerSpec::Equal => Some(timeout.map_or(t0 + FAR, |t| t0 + t)),
             TimerSpec::Later { ms } => Some(timeout.map_or(t0 + FAR, |t| t0 + t + Duration::from_millis(ms as u64))),
             TimerSpec::Far => Some(t0 + FAR),
+            TimerSpec::AtLate => Some(t0 + Duration::from_millis(120)),
             TimerSpec::Never => None,
         };
         let timer = match deadline {
@@ -775,9 +834,11 @@ fn run_once(c: &Case) -> Obs {
         h.update(&tok).expect("update timer");
     }
 
+    slow_flag.store(true, Ordering::SeqCst);
     let t_before = Instant::now();
     el.dispatch(timeout, &mut trace).expect("measured dispatch");
     let t_after = Instant::now();
+    slow_flag.store(false, Ordering::SeqCst);
 
     cancel.cancel();
     let out = asst.join().expect("assistant thread");
@@ -883,6 +944,11 @@ fn judge(c: &Case, o: &Obs) -> Judgement {
     for (i, t) in c.timers.iter().enumerate() {
         j.classes.push(match *t {
             TimerSpec::Expired { .. } => "timer:expired",
+            TimerSpec::AtLate => match timeout {
+                Some(t) if t < Duration::from_millis(120) => "timer:later_than_timeout",
+                Some(_) => "timer:earlier_than_timeout",
+                None => "timer:only_limit",
+            },
             TimerSpec::At { .. } => match (timeout, o.deadlines[i]) {
                 (Some(t), Some(d)) if d < o.t_before + t => "timer:earlier_than_timeout",
                 (Some(_), Some(_)) => "timer:later_than_timeout",
@@ -1106,13 +1172,26 @@ fn judge(c: &Case, o: &Obs) -> Judgement {
     }
 
     // ---- upper bounds: scheduling latency, confirmed 3x by the caller -------------------------
-    let helper_done = waking.map(|(_, done)| done.saturating_duration_since(o.t_before));
-    let ub = match (limit, helper_done) {
+    // time the before_sleep hooks of this configuration take (they run before the wait, inside the call)
+    let hook = SLOW_HOOK * c.idle.iter().filter(|i| matches!(i, Idle::SlowHook)).count() as u32;
+    if !hook.is_zero() {
+        j.classes.push("slow_before_sleep_hook");
+    }
+    // upper limit: a timer deadline is absolute (the hooks' time is absorbed unless they outlast it), a timeout
+    // starts when the wait starts, i.e. after the hooks
+    let limit_ub: Option<Duration> = match (timeout, until_timer) {
+        (Some(t), Some(u)) => Some((hook + t).min(u.max(hook))),
+        (Some(t), None) => Some(hook + t),
+        (None, Some(u)) => Some(u.max(hook)),
+        (None, None) => None,
+    };
+    let helper_done = waking.map(|(_, done)| done.saturating_duration_since(o.t_before).max(hook));
+    let ub = match (limit_ub, helper_done) {
         (Some(l), Some(hd)) => Some(l.min(hd)),
         (l, hd) => l.or(hd),
     };
     // distribution of the measured oversleep (how far the box is from the 60 ms slack)
-    if let Some(ub) = if c.timeout == Tmo::Zero { Some(Duration::ZERO) } else { ub } {
+    if let Some(ub) = if c.timeout == Tmo::Zero { Some(hook) } else { ub } {
         let over = elapsed.saturating_sub(ub);
         j.classes.push(if over < Duration::from_millis(1) {
             "oversleep:<1ms"
@@ -1127,7 +1206,7 @@ fn judge(c: &Case, o: &Obs) -> Judgement {
         });
     }
     if c.timeout == Tmo::Zero {
-        if elapsed > SLACK {
+        if elapsed > hook + SLACK {
             j.soft.push(
                 Violation::new(
                     "C12.zero",
@@ -1354,7 +1433,8 @@ pub fn run_case_with(known: &Known, case: &Case) -> CaseOutcome {
 // class cross product: timeout class x timer-relation class x idle-source kind
 // ------------------------------------------------------------------------------------------------
 
-const ALL_IDLE: [Idle; 18] = [
+const ALL_IDLE: [Idle; 19] = [
+    Idle::SlowHook,
     Idle::PingLive { used: false },
     Idle::PingLive { used: true },
     Idle::PingDead { used: false },
@@ -1386,7 +1466,7 @@ fn cross_product(include_long_waits: bool) -> Vec<Case> {
             Tmo::Ms(7) => 3,
             _ => 9,
         };
-        let relations: [Vec<TimerSpec>; 13] = [
+        let relations: [Vec<TimerSpec>; 14] = [
             vec![],
             vec![TimerSpec::Expired { ago_ms: 2 }],
             vec![TimerSpec::At { ms: earlier_ms }],
@@ -1404,6 +1484,7 @@ fn cross_product(include_long_waits: bool) -> Vec<Case> {
             vec![TimerSpec::Far, TimerSpec::Disabled { ms: -3 }, TimerSpec::Disabled { ms: 5 }],
             vec![TimerSpec::Far, TimerSpec::Rearmed { old_ms: 6, new_ms: -1 }],
             vec![TimerSpec::Rearmed { old_ms: -2, new_ms: 4 }, TimerSpec::Rearmed { old_ms: 3, new_ms: 30 }],
+            vec![TimerSpec::AtLate],
         ];
         for timers in relations {
             for k in 0..=ALL_IDLE.len() {
@@ -1503,11 +1584,11 @@ pub fn check(ctx: &CheckCtx) -> Option<Found> {
     }
     if thorough {
         ctx.col.exhaustive(
-            "class cross product: 5 timeout classes x 13 timer-relation classes x (no idle source + 18 idle-source kinds), one fixed representative inside each class",
+            "class cross product: 5 timeout classes x 14 timer-relation classes x (no idle source + 19 idle-source kinds), one fixed representative inside each class",
         );
     } else {
         ctx.col.note(format!(
-            "class cross product restricted to the {n_cross} combinations whose correct wait is <= 60 ms (thorough runs all 1235)"
+            "class cross product restricted to the {n_cross} combinations whose correct wait is <= 60 ms (thorough runs all 1400)"
         ));
     }
     ctx.col.set_sub("config.cross_product", serde_json::json!({ "combinations": n_cross }));
